@@ -700,6 +700,12 @@ func (f *Fam) Exec(op string) (string, []common.Failure) {
 		asc := w[3] == "asc"
 		want := rangeOf(f.view(ti), a, b, bNil, asc)
 		base0 := f.view(0)
+		nGasIt, cleanIt := f.gasLayersInZone()
+		gIt0 := uint64(0)
+		if f.meter != nil {
+			gIt0 = f.meter.GasConsumed()
+		}
+		var lens []int
 		obs = f.guarded(func() string {
 			var it stypes.Iterator
 			var pb []byte
@@ -717,9 +723,26 @@ func (f *Fam) Exec(op string) (string, []common.Failure) {
 				k := it.Key()
 				v := it.Value()
 				parts = append(parts, hx(k)+"="+hx(v))
+				lens = append(lens, len(v))
 			}
 			return "[" + strings.Join(parts, ",") + "]"
 		})
+		// C16: a gas layer charges the flat iteration cost plus the per-byte read cost of the current value once when
+		// the iterator is opened on an item and once for every Next() from an item - nothing for an empty range
+		if f.meter != nil && cleanIt && nGasIt > 0 && !f.staleOK && !strings.HasPrefix(obs, "panic") {
+			var cost uint64
+			for i, l := range lens {
+				c := cfg.IterNextCostFlat + cfg.ReadCostPerByte*uint64(l)
+				cost += c
+				if i == 0 {
+					cost += c
+				}
+			}
+			cost *= uint64(nGasIt)
+			if got := f.meter.GasConsumed() - gIt0; got != cost {
+				fail("gas-exact", "C16:gas:iterate", fmt.Sprintf("%s over %d items consumed %d, documented cost %d", op, len(lens), got, cost))
+			}
+		}
 		if !f.staleOK && !strings.HasPrefix(obs, "panic") && !strings.HasPrefix(obs, want+" g=") {
 			isig := "C15:iterator"
 		if f.hasKindBelowTop("pfx") {
